@@ -152,11 +152,22 @@ func runC16(c *Ctx) {
 			retained := reflect.MakeSlice(batch.Type(), 0, n)
 			var snaps []reflect.Value
 			closed := false
+			pos := 0
 			steps := r.Range(4, 14)
 			for s := 0; s < steps && !closed; s++ {
 				switch op := r.Intn(10); {
 				case op < 5:
 					k, err := te.ops.Read(gr, batch)
+					if k > 0 && pos >= 0 && pos+k <= n {
+						// what is handed out must be the file's rows in the first place (a buffer
+						// released too early is already overwritten by the poison hook here)
+						if ok, diff := eqRows(rows.Slice(pos, pos+k), batch.Slice(0, k)); !ok {
+							c.Extra("history", acts)
+							c.Fail("c16.value_wrong_when_returned", keys, "values returned by Read at row %d differ from the rows written, after [%s]: %s", pos, strings.Join(acts, " "), diff)
+							return
+						}
+					}
+					pos += k
 					if k > 0 {
 						// retain like a caller: shallow copies of the rows, batch reused next time
 						for i := 0; i < k; i++ {
@@ -177,9 +188,13 @@ func runC16(c *Ctx) {
 					if err := gr.SeekToRow(k); err == nil {
 						acts = append(acts, fmt.Sprintf("seek(%d)", k))
 						c.Obs("activity_seek", 1)
+						pos = int(k)
+					} else {
+						pos = -1 << 30
 					}
 				case op == 6:
 					gr.Reset()
+					pos = 0
 					acts = append(acts, "reset")
 					c.Obs("activity_reset", 1)
 				case op == 7 && s > 2:
